@@ -20,6 +20,8 @@ import Kskm.KsrPolicy
 import KskmGen.Tables
 import KskmProofs.Lemmas.Res
 import KskmProofs.Lemmas.C06
+import KskmProofs.Lemmas.C06Ord
+import KskmProofs.Lemmas.C06Parsed
 import KskmProofs.C05
 import KskmProofs.C14
 set_option linter.unusedSimpArgs false
@@ -363,6 +365,11 @@ def DeclaredWellFormed (req : Request) : Prop :=
   entry such as `<SignatureAlgorithm algorithm="15"><ECDSA size="256"/>` makes that raise `ValueError`
   if the set iteration reaches it before the matching entry.  `ecdsa_declared_order_witness` below
   proves the order dependence on a concrete input; the correspondence run replays it on /repo.
+  VERDICT (section "What is true WITHOUT `DeclaredWellFormed`" below): the hypothesis is necessary for
+  each `_partial` theorem (`keyParams_ecdsa_iff_needed`, `keyParams_eddsa_iff_needed`,
+  `checkNewKey_iff_needed`, `keysMatch_iff_clause_needed`, `C06_iff_spec_needed`), only for `←`
+  (`…_sound`), and the hypothesis-free exact statements are `keyParams_ecdsa_iff`, `keyParams_eddsa_iff`,
+  `checkNewKey_iff`, `keysMatch_iff_clause`, `C06_iff_spec`.
 -/
 
 /-- ECDSA keys, for self-consistent declared policies. -/
@@ -712,5 +719,475 @@ theorem ecdsa_declared_order_witness :
     keyParamsCheck { exReq with zskPolicy := { algorithms := [exEcGood, exEcBad] } } exPol exEcKey = .ok () ∧
     keyParamsCheck { exReq with zskPolicy := { algorithms := [exEcBad, exEcGood] } } exPol exEcKey = err .value := by
   decide +kernel
+
+
+/-! ## What is true WITHOUT `DeclaredWellFormed`
+
+  Verdict for the five `_partial` theorems above: the hypothesis is NECESSARY for each of them (the
+  `_needed` theorems below refute the hypothesis-free statements on concrete inputs, which the
+  correspondence run replays on /repo at `validate_request`), but only for the `←` direction.  Three
+  hypothesis-free facts replace it:
+
+  * `…_sound`      : acceptance always implies the documented clause (the `→` halves, every input);
+  * `…_iff` / `C06_iff_spec` : the exact accepted region for every input, the "matching one declared
+    algorithm" clause refined to say what /repo does with an ill-formed declared entry: the matching
+    entry must be met, in the visiting order of the declared set, before any entry of the same element
+    kind whose algorithm number is not of that kind (on such an entry /repo raises `ValueError`, which
+    is a rejection, not a policy violation);
+  * `C06_iff_spec_allowed`, `C06_iff_spec_families_off` : the UNREFINED documented region is exact under
+    hypotheses strictly weaker than `DeclaredWellFormed` — in particular for every request whatsoever
+    when ECDSA and EdDSA are not enabled (the default).
+
+  The property text is silent on declared entries whose element kind contradicts their algorithm
+  number: read literally ("parameters … matching one declared algorithm") the witness requests lie in
+  the region and /repo does not accept them in one of the two visiting orders — recorded as the
+  declared-entry-order observation of DESIGN §5 (proposed_fixes/C06_ec_declared_entry_order.diff).
+-/
+
+/-- ECDSA, refined: the matching declared entry is reached before any `<ECDSA>` entry carrying a
+    non-ECDSA number (visiting order of the declared set). -/
+def EcdsaParamsClauseOrdered (req : Request) (k : Key) : Prop :=
+  ∃ pk, Base64.decode k.publicKey = some pk ∧
+    ∃ pre a post, req.zskPolicy.algorithms = pre ++ a :: post ∧
+      (∀ x ∈ pre, x.kind = .ecdsa → x.algorithm ∈ KskmGen.ecdsaAlgorithms) ∧
+      a.kind = .ecdsa ∧ a.algorithm = k.algorithm ∧
+      ∃ p, ecdsaWithoutPrefix pk a.algorithm = .ok p ∧ (getEcdsaPubkeySize p : Int) = a.bits
+
+/-- EdDSA, refined in the same way. -/
+def EddsaParamsClauseOrdered (req : Request) (k : Key) : Prop :=
+  ∃ pk, Base64.decode k.publicKey = some pk ∧
+    ∃ pre a post, req.zskPolicy.algorithms = pre ++ a :: post ∧
+      (∀ x ∈ pre, x.kind = .eddsa → x.algorithm ∈ KskmGen.eddsaAlgorithms) ∧
+      a.kind = .eddsa ∧ a.algorithm = k.algorithm ∧
+      ∃ p, eddsaWithoutPrefix pk a.algorithm = .ok p ∧ ((p.length * 8 : Nat) : Int) = a.bits
+
+theorem ecdsaOrdered_imp (req : Request) (k : Key) (h : EcdsaParamsClauseOrdered req k) :
+    EcdsaParamsClause req k := by
+  obtain ⟨pk, hd, pre, a, post, heq, _, h⟩ := h
+  exact ⟨pk, hd, a, by simp [heq], h⟩
+
+theorem eddsaOrdered_imp (req : Request) (k : Key) (h : EddsaParamsClauseOrdered req k) :
+    EddsaParamsClause req k := by
+  obtain ⟨pk, hd, pre, a, post, heq, _, h⟩ := h
+  exact ⟨pk, hd, a, by simp [heq], h⟩
+
+/-- **ECDSA keys, every declared set (no hypothesis).**  Supersedes `keyParams_ecdsa_iff_partial`. -/
+theorem keyParams_ecdsa_iff (req : Request) (pol : RequestPolicy) (k : Key)
+    (hal : isAlgorithmEcdsa k.algorithm = true) :
+    keyParamsCheck req pol k = .ok () ↔ EcdsaParamsClauseOrdered req k := by
+  have hr : isAlgorithmRsa k.algorithm = false := by
+    simp only [isAlgorithmEcdsa, algECDSAP256, algECDSAP384, Bool.or_eq_true, beq_iff_eq] at hal
+    rcases hal with h | h <;> rw [h] <;> decide
+  unfold keyParamsCheck EcdsaParamsClauseOrdered
+  simp only [hr, Bool.false_eq_true, ↓reduceIte, hal]
+  cases hd : Base64.decode k.publicKey with
+  | none => simp [unsupported]
+  | some pk =>
+    simp only [Option.some.injEq, exists_eq_left', ← isEcdsa_iff_table]
+    rw [← matchEcdsaAlg_true_iff_ordered k pk]
+    cases hm : matchEcdsaAlg req.zskPolicy.algorithms k pk with
+    | error e => simp [bind, Except.bind]
+    | ok m => cases m <;> simp [bind, Except.bind]
+
+/-- **EdDSA keys, every declared set (no hypothesis).**  Supersedes `keyParams_eddsa_iff_partial`. -/
+theorem keyParams_eddsa_iff (req : Request) (pol : RequestPolicy) (k : Key)
+    (hal : isAlgorithmEddsa k.algorithm = true) :
+    keyParamsCheck req pol k = .ok () ↔ EddsaParamsClauseOrdered req k := by
+  have hr : isAlgorithmRsa k.algorithm = false ∧ isAlgorithmEcdsa k.algorithm = false := by
+    simp only [isAlgorithmEddsa, algED25519, algED448, Bool.or_eq_true, beq_iff_eq] at hal
+    rcases hal with h | h <;> rw [h] <;> decide
+  unfold keyParamsCheck EddsaParamsClauseOrdered
+  simp only [hr.1, hr.2, Bool.false_eq_true, ↓reduceIte, hal]
+  cases hd : Base64.decode k.publicKey with
+  | none => simp [unsupported]
+  | some pk =>
+    simp only [Option.some.injEq, exists_eq_left', ← isEddsa_iff_table]
+    rw [← matchEddsaAlg_true_iff_ordered k pk]
+    cases hm : matchEddsaAlg req.zskPolicy.algorithms k pk with
+    | error e => simp [bind, Except.bind]
+    | ok m => cases m <;> simp [bind, Except.bind]
+
+/-- acceptance of an ECDSA key always implies the documented clause (no hypothesis) -/
+theorem keyParams_ecdsa_sound (req : Request) (pol : RequestPolicy) (k : Key)
+    (hal : isAlgorithmEcdsa k.algorithm = true) (h : keyParamsCheck req pol k = .ok ()) :
+    EcdsaParamsClause req k :=
+  ecdsaOrdered_imp req k ((keyParams_ecdsa_iff req pol k hal).mp h)
+
+/-- acceptance of an EdDSA key always implies the documented clause (no hypothesis) -/
+theorem keyParams_eddsa_sound (req : Request) (pol : RequestPolicy) (k : Key)
+    (hal : isAlgorithmEddsa k.algorithm = true) (h : keyParamsCheck req pol k = .ok ()) :
+    EddsaParamsClause req k :=
+  eddsaOrdered_imp req k ((keyParams_eddsa_iff req pol k hal).mp h)
+
+/-- the per-key clause with the refined ECDSA / EdDSA matching -/
+def KeyClauseOrdered (req : Request) (pol : RequestPolicy) (k : Key) : Prop :=
+  FlagsTagClause k ∧
+  ((k.algorithm ∈ KskmGen.rsaAlgorithms ∧ RsaParamsClause req pol k) ∨
+   (k.algorithm ∈ KskmGen.ecdsaAlgorithms ∧ EcdsaParamsClauseOrdered req k) ∨
+   (k.algorithm ∈ KskmGen.eddsaAlgorithms ∧ EddsaParamsClauseOrdered req k))
+
+theorem keyClauseOrdered_imp (req : Request) (pol : RequestPolicy) (k : Key)
+    (h : KeyClauseOrdered req pol k) : KeyClause req pol k := by
+  obtain ⟨h1, h2⟩ := h
+  refine ⟨h1, ?_⟩
+  rcases h2 with h | h | h
+  · exact Or.inl h
+  · exact Or.inr (Or.inl ⟨h.1, ecdsaOrdered_imp _ _ h.2⟩)
+  · exact Or.inr (Or.inr ⟨h.1, eddsaOrdered_imp _ _ h.2⟩)
+
+/-- **New-key checks, every key family, every declared set (no hypothesis).**
+    Supersedes `checkNewKey_iff_partial`. -/
+theorem checkNewKey_iff (req : Request) (pol : RequestPolicy) (k : Key) :
+    checkNewKey req pol k = .ok () ↔ KeyClauseOrdered req pol k := by
+  rw [checkNewKey_eq, seq_ok_iff, keyFlagsTag_iff, and_comm]
+  unfold KeyClauseOrdered
+  apply and_congr_right; intro _
+  rw [← isRsa_iff_table, ← isEcdsa_iff_table, ← isEddsa_iff_table]
+  by_cases h1 : isAlgorithmRsa k.algorithm = true
+  · have h2 : isAlgorithmEcdsa k.algorithm = false ∧ isAlgorithmEddsa k.algorithm = false := by
+      simp only [isAlgorithmRsa, algRSASHA1, algRSASHA256, algRSASHA512, Bool.or_eq_true, beq_iff_eq] at h1
+      rcases h1 with (h | h) | h <;> rw [h] <;> decide
+    simp [h1, h2.1, h2.2, keyParams_rsa_iff req pol k h1]
+  · have h1f : isAlgorithmRsa k.algorithm = false := by simpa using h1
+    by_cases h2 : isAlgorithmEcdsa k.algorithm = true
+    · have h3 : isAlgorithmEddsa k.algorithm = false := by
+        simp only [isAlgorithmEcdsa, algECDSAP256, algECDSAP384, Bool.or_eq_true, beq_iff_eq] at h2
+        rcases h2 with h | h <;> rw [h] <;> decide
+      simp [h1f, h2, h3, keyParams_ecdsa_iff req pol k h2]
+    · have h2f : isAlgorithmEcdsa k.algorithm = false := by simpa using h2
+      by_cases h3 : isAlgorithmEddsa k.algorithm = true
+      · simp [h1f, h2f, h3, keyParams_eddsa_iff req pol k h3]
+      · have h3f : isAlgorithmEddsa k.algorithm = false := by simpa using h3
+        simp [h1f, h2f, h3f, keyParams_other_rejects req pol k h1f h2f h3f]
+
+/-- acceptance of a new key always implies the documented per-key clause (no hypothesis) -/
+theorem checkNewKey_sound (req : Request) (pol : RequestPolicy) (k : Key)
+    (h : checkNewKey req pol k = .ok ()) : KeyClause req pol k :=
+  keyClauseOrdered_imp req pol k ((checkNewKey_iff req pol k).mp h)
+
+/-- **KSR-BUNDLE-KEYS in the property's vocabulary, every declared set (no hypothesis).**
+    Supersedes `keysMatch_iff_clause_partial`. -/
+theorem keysMatch_iff_clause (req : Request) (pol : RequestPolicy) (hf : pol.keysMatchZskPolicy = true) :
+    checkKeysMatchZskPolicy req pol = .ok () ↔
+      (∀ k ∈ allKeys req, KeyClauseOrdered req pol k) ∧ IdentifierConsistent req := by
+  rw [keysMatch_iff req pol hf]
+  apply and_congr_left'
+  apply forall_congr'; intro k; apply imp_congr_right; intro _
+  exact checkNewKey_iff req pol k
+
+/-- the documented region with the refined matching clause -/
+def KeyHeaderRegionSpecOrdered (req : Request) (pol : RequestPolicy) : Prop :=
+  DomainClause req pol ∧ UniqueIdsClause req ∧
+  (pol.keysMatchZskPolicy = true →
+    (∀ k ∈ allKeys req, KeyClauseOrdered req pol k) ∧ IdentifierConsistent req) ∧
+  (pol.checkKeysMatchKskOperatorPolicy = true → KeyCountsClause req pol) ∧
+  AlgorithmClause req pol
+
+/-- **C06, every request, every policy, every clause in the property's vocabulary, no hypothesis.**
+    Supersedes `C06_iff_spec_partial` (which follows: under `DeclaredWellFormed` the `pre` condition of
+    the refined clause is vacuous). -/
+theorem C06_iff_spec (req : Request) (pol : RequestPolicy) :
+    keyHeaderChecks req pol = .ok () ↔ KeyHeaderRegionSpecOrdered req pol := by
+  rw [C06_iff]
+  unfold KeyHeaderRegion KeyHeaderRegionSpecOrdered
+  apply and_congr_right; intro _
+  apply and_congr_right; intro _
+  apply and_congr_left'
+  apply imp_congr_right; intro _
+  apply and_congr_left'
+  apply forall_congr'; intro k; apply imp_congr_right; intro _
+  exact checkNewKey_iff req pol k
+
+theorem regionOrdered_imp (req : Request) (pol : RequestPolicy) (h : KeyHeaderRegionSpecOrdered req pol) :
+    KeyHeaderRegionSpec req pol := by
+  obtain ⟨h1, h2, h3, h4, h5⟩ := h
+  exact ⟨h1, h2, fun hf => ⟨fun k hk => keyClauseOrdered_imp req pol k ((h3 hf).1 k hk), (h3 hf).2⟩, h4, h5⟩
+
+/-- **Accepted ⇒ inside the documented region**, every request, every policy (no hypothesis): the
+    `→` half of `C06_iff_spec_partial` never needed `DeclaredWellFormed`. -/
+theorem C06_spec_sound (req : Request) (pol : RequestPolicy) (h : keyHeaderChecks req pol = .ok ()) :
+    KeyHeaderRegionSpec req pol :=
+  regionOrdered_imp req pol ((C06_iff_spec req pol).mp h)
+
+/-- an ill-formed declared entry matters only if the algorithm clause lets its number through -/
+def DeclaredWellFormedWhereAllowed (req : Request) (pol : RequestPolicy) : Prop :=
+  ∀ a ∈ req.zskPolicy.algorithms, AlgAllowed pol a.algorithm →
+    (a.kind = .ecdsa → a.algorithm ∈ KskmGen.ecdsaAlgorithms) ∧
+    (a.kind = .eddsa → a.algorithm ∈ KskmGen.eddsaAlgorithms)
+
+theorem declaredWellFormed_imp_whereAllowed (req : Request) (pol : RequestPolicy)
+    (h : DeclaredWellFormed req) : DeclaredWellFormedWhereAllowed req pol :=
+  fun a ha _ => h a ha
+
+/-- **C06 against the unrefined documented region under a hypothesis strictly weaker than
+    `DeclaredWellFormed`**: needed only when KSR-BUNDLE-KEYS is switched on, and only of declared
+    entries whose algorithm number is allowed under the policy. -/
+theorem C06_iff_spec_allowed (req : Request) (pol : RequestPolicy)
+    (hwf : pol.keysMatchZskPolicy = true → DeclaredWellFormedWhereAllowed req pol) :
+    keyHeaderChecks req pol = .ok () ↔ KeyHeaderRegionSpec req pol := by
+  constructor
+  · exact C06_spec_sound req pol
+  · intro h
+    cases hf : pol.keysMatchZskPolicy
+    · rw [C06_iff]
+      obtain ⟨h1, h2, _, h4, h5⟩ := h
+      unfold KeyHeaderRegion
+      refine ⟨h1, h2, ?_, h4, h5⟩
+      intro hc; rw [hf] at hc; cases hc
+    · have hd : DeclaredWellFormed req := fun a ha => hwf hf a ha (h.2.2.2.2.1 a ha)
+      exact (C06_iff_spec_partial req pol hd).mpr h
+
+/-- **With ECDSA and EdDSA not enabled (the default) the unrefined documented region is exact for
+    every request whatsoever**: no hypothesis on the declared entries. -/
+theorem C06_iff_spec_families_off (req : Request) (pol : RequestPolicy)
+    (hec : pol.enableUnsupportedEcdsa = false) (hed : pol.enableUnsupportedEdwardsDsa = false) :
+    keyHeaderChecks req pol = .ok () ↔ KeyHeaderRegionSpec req pol := by
+  constructor
+  · exact C06_spec_sound req pol
+  · intro h
+    rw [C06_iff]
+    obtain ⟨h1, h2, h3, h4, h5⟩ := h
+    refine ⟨h1, h2, fun hf => ⟨fun k hk => ?_, (h3 hf).2⟩, h4, h5⟩
+    obtain ⟨hft, hpar⟩ := (h3 hf).1 k hk
+    rcases hpar with ⟨hr, hp⟩ | ⟨he, pk, _, a, ha, _, hak, _⟩ | ⟨he, pk, _, a, ha, _, hak, _⟩
+    · exact (checkNewKey_rsa_iff req pol k hr).mpr ⟨hft, hp⟩
+    · have := (h5.1 a ha).2.2.1 (hak ▸ he)
+      rw [hec] at this; cases this
+    · have := (h5.1 a ha).2.2.2 (hak ▸ he)
+      rw [hed] at this; cases this
+
+/-! ### Witnesses: the hypothesis of each `_partial` theorem is necessary -/
+
+/-- the ECDSA key of `ecdsa_declared_order_witness` with its RFC 4034 tag (64 zero octets, P-256) -/
+def wEcKey : Key := { exEcKey with keyTag := 1037 }
+/-- an Ed25519 key (32 zero octets) with its tag, and a well-formed / an ill-formed `<EdDSA>` entry -/
+def wEdKey : Key :=
+  { keyIdentifier := "ed", keyTag := 1039, ttl := 0, flags := 256, protocol := 3, algorithm := 15,
+    publicKey := "AAAAAAAAAAAAAAAAAAAAAAAAAAAAAAAAAAAAAAAAAAA=" }
+def exEdGood : AlgPolicy := { kind := .eddsa, bits := 256, algorithm := 15 }
+def exEdBad : AlgPolicy := { kind := .eddsa, bits := 256, algorithm := 13 }
+
+/-- one bundle, one ECDSA key; declared set visited as [`<ECDSA>` with number 15, ECDSA-P256/256] -/
+def wEcReq : Request :=
+  { id := "w", serial := 1, domain := ".", zskPolicy := { algorithms := [exEcBad, exEcGood] },
+    bundles := [exBundle 0 [wEcKey]] }
+/-- one bundle, one Ed25519 key; declared set visited as [`<EdDSA>` with number 13, Ed25519/256] -/
+def wEdReq : Request :=
+  { id := "w", serial := 1, domain := ".", zskPolicy := { algorithms := [exEdBad, exEdGood] },
+    bundles := [exBundle 0 [wEdKey]] }
+/-- every C06 check on, both experimental families enabled and approved -/
+def wPol : RequestPolicy :=
+  { KskmGen.requestPolicyDefaults with
+    enableUnsupportedEcdsa := true, enableUnsupportedEdwardsDsa := true,
+    approvedAlgorithms := [some 13, some 15], numKeysPerBundle := [1], numDifferentKeysInAllBundles := 1 }
+
+theorem wEc_decode : Base64.decode wEcKey.publicKey = some (List.replicate 64 0) := by decide +kernel
+theorem wEd_decode : Base64.decode wEdKey.publicKey = some (List.replicate 32 0) := by decide +kernel
+
+/-- the witness key satisfies the documented ECDSA clause: it matches the declared ECDSA-P256/256 -/
+theorem wEc_clause : EcdsaParamsClause wEcReq wEcKey :=
+  ⟨_, wEc_decode, exEcGood, by simp [wEcReq], rfl, rfl, List.replicate 64 0, by decide +kernel, by decide +kernel⟩
+
+theorem wEd_clause : EddsaParamsClause wEdReq wEdKey :=
+  ⟨_, wEd_decode, exEdGood, by simp [wEdReq], rfl, rfl, List.replicate 32 0, by decide +kernel, by decide +kernel⟩
+
+theorem wEc_keyClause : KeyClause wEcReq wPol wEcKey :=
+  ⟨(keyFlagsTag_iff _).mp (by decide +kernel), Or.inr (Or.inl ⟨by decide, wEc_clause⟩)⟩
+
+theorem wEd_keyClause : KeyClause wEdReq wPol wEdKey :=
+  ⟨(keyFlagsTag_iff _).mp (by decide +kernel), Or.inr (Or.inr ⟨by decide, wEd_clause⟩)⟩
+
+/-- **`keyParams_ecdsa_iff_partial` needs its hypothesis**: the key matches a declared algorithm, the
+    model (and /repo: `ValueError`) does not accept it. -/
+theorem keyParams_ecdsa_iff_needed :
+    ¬ ∀ (req : Request) (pol : RequestPolicy) (k : Key), isAlgorithmEcdsa k.algorithm = true →
+        (keyParamsCheck req pol k = .ok () ↔ EcdsaParamsClause req k) := by
+  intro h
+  have := (h wEcReq wPol wEcKey (by decide)).mpr wEc_clause
+  exact absurd this (by decide +kernel)
+
+/-- **`keyParams_eddsa_iff_partial` needs its hypothesis.** -/
+theorem keyParams_eddsa_iff_needed :
+    ¬ ∀ (req : Request) (pol : RequestPolicy) (k : Key), isAlgorithmEddsa k.algorithm = true →
+        (keyParamsCheck req pol k = .ok () ↔ EddsaParamsClause req k) := by
+  intro h
+  have := (h wEdReq wPol wEdKey (by decide)).mpr wEd_clause
+  exact absurd this (by decide +kernel)
+
+/-- **`checkNewKey_iff_partial` needs its hypothesis.** -/
+theorem checkNewKey_iff_needed :
+    ¬ ∀ (req : Request) (pol : RequestPolicy) (k : Key),
+        (checkNewKey req pol k = .ok () ↔ KeyClause req pol k) := by
+  intro h
+  have := (h wEcReq wPol wEcKey).mpr wEc_keyClause
+  exact absurd this (by decide +kernel)
+
+theorem wEc_allKeys : allKeys wEcReq = [wEcKey] := rfl
+theorem wEd_allKeys : allKeys wEdReq = [wEdKey] := rfl
+
+theorem wEc_keys : (∀ k ∈ allKeys wEcReq, KeyClause wEcReq wPol k) ∧ IdentifierConsistent wEcReq := by
+  unfold IdentifierConsistent
+  rw [wEc_allKeys]
+  refine ⟨fun k hk => ?_, fun a ha b hb _ => ?_⟩
+  · rw [List.mem_singleton.mp hk]; exact wEc_keyClause
+  · rw [List.mem_singleton.mp ha, List.mem_singleton.mp hb]
+
+theorem wEd_keys : (∀ k ∈ allKeys wEdReq, KeyClause wEdReq wPol k) ∧ IdentifierConsistent wEdReq := by
+  unfold IdentifierConsistent
+  rw [wEd_allKeys]
+  refine ⟨fun k hk => ?_, fun a ha b hb _ => ?_⟩
+  · rw [List.mem_singleton.mp hk]; exact wEd_keyClause
+  · rw [List.mem_singleton.mp ha, List.mem_singleton.mp hb]
+
+/-- **`keysMatch_iff_clause_partial` needs its hypothesis.** -/
+theorem keysMatch_iff_clause_needed :
+    ¬ ∀ (req : Request) (pol : RequestPolicy), pol.keysMatchZskPolicy = true →
+        (checkKeysMatchZskPolicy req pol = .ok () ↔
+          (∀ k ∈ allKeys req, KeyClause req pol k) ∧ IdentifierConsistent req) := by
+  intro h
+  have := (h wEcReq wPol (by decide)).mpr wEc_keys
+  exact absurd this (by decide +kernel)
+
+/-- the ECDSA witness request lies in the documented region as literally stated -/
+theorem wEc_region : KeyHeaderRegionSpec wEcReq wPol :=
+  ⟨(domain_iff _ _).mp (by decide +kernel), (uniqueIds_iff _).mp (by decide +kernel), fun _ => wEc_keys,
+   (keysInBundles_iff _ _).mp (by decide +kernel), (zskPolicyAlgorithm_iff _ _).mp (by decide +kernel)⟩
+
+/-- the EdDSA witness request lies in the documented region as literally stated -/
+theorem wEd_region : KeyHeaderRegionSpec wEdReq wPol :=
+  ⟨(domain_iff _ _).mp (by decide +kernel), (uniqueIds_iff _).mp (by decide +kernel), fun _ => wEd_keys,
+   (keysInBundles_iff _ _).mp (by decide +kernel), (zskPolicyAlgorithm_iff _ _).mp (by decide +kernel)⟩
+
+/-- **`C06_iff_spec_partial` needs a hypothesis**: a whole request inside the documented region as
+    literally stated (domain, unique ids, counts, every declared algorithm allowed and approved, the
+    key's flags, tag and parameters matching one declared algorithm) that the rules do not accept. -/
+theorem C06_iff_spec_needed :
+    ¬ ∀ (req : Request) (pol : RequestPolicy),
+        (keyHeaderChecks req pol = .ok () ↔ KeyHeaderRegionSpec req pol) := by
+  intro h
+  have := (h wEcReq wPol).mpr wEc_region
+  exact absurd this (by decide +kernel)
+
+/-- the outcome on both witnesses is a non-policy error (`ValueError` on /repo), and the same declared
+    sets visited in the other order are accepted -/
+theorem witnesses_outcome :
+    keyHeaderChecks wEcReq wPol = err .value ∧ keyHeaderChecks wEdReq wPol = err .value ∧
+    keyHeaderChecks { wEcReq with zskPolicy := { algorithms := [exEcGood, exEcBad] } } wPol = .ok () ∧
+    keyHeaderChecks { wEdReq with zskPolicy := { algorithms := [exEdGood, exEdBad] } } wPol = .ok () := by
+  decide +kernel
+
+/-- neither `DeclaredWellFormedWhereAllowed` nor the families-off hypothesis holds of the witnesses
+    (as it must be), and both weaker hypotheses are satisfiable where `DeclaredWellFormed` is not -/
+example : ¬ DeclaredWellFormedWhereAllowed wEcReq wPol := by
+  intro h
+  have := (h exEcBad (by simp [wEcReq]) ((algAllowed_iff_allowedB _ _).mpr (by decide +kernel))).1 rfl
+  revert this; decide
+/-- an ill-formed declared entry with a number that is not allowed (ECDSA element, number 15, EdDSA
+    not enabled): `DeclaredWellFormed` fails, `DeclaredWellFormedWhereAllowed` holds, and so does the
+    families-off hypothesis under the defaults -/
+example : ¬ DeclaredWellFormed wEcReq := by
+  intro h; have := (h exEcBad (by simp [wEcReq])).1 rfl; revert this; decide
+example : DeclaredWellFormedWhereAllowed wEcReq { wPol with enableUnsupportedEdwardsDsa := false } := by
+  intro a ha hall
+  simp only [wEcReq, List.mem_cons, List.mem_singleton, List.not_mem_nil, or_false] at ha
+  rcases ha with rfl | rfl
+  · exfalso
+    have := (algAllowed_iff_allowedB _ _).mp hall
+    revert this; decide +kernel
+  · exact ⟨fun _ => by decide, fun h => by cases h⟩
+example : KskmGen.requestPolicyDefaults.enableUnsupportedEcdsa = false ∧
+    KskmGen.requestPolicyDefaults.enableUnsupportedEdwardsDsa = false := by decide
+/-- the refined clause is met by the witness visited in the good order -/
+example : EcdsaParamsClauseOrdered { wEcReq with zskPolicy := { algorithms := [exEcGood, exEcBad] } } wEcKey :=
+  ⟨_, wEc_decode, [], exEcGood, [exEcBad], rfl, by simp, rfl, rfl, List.replicate 64 0,
+    by decide +kernel, by decide +kernel⟩
+
+
+/-! ### The refined region coincides with the documented one on well-formed declared policies -/
+
+theorem ecdsaOrdered_of_wellFormed (req : Request) (k : Key) (hwf : DeclaredWellFormed req)
+    (h : EcdsaParamsClause req k) : EcdsaParamsClauseOrdered req k := by
+  obtain ⟨pk, hd, a, ha, h⟩ := h
+  obtain ⟨pre, post, heq⟩ := List.append_of_mem ha
+  exact ⟨pk, hd, pre, a, post, heq,
+    fun x hx hk => (hwf x (by rw [heq]; exact List.mem_append_left _ hx)).1 hk, h⟩
+
+theorem eddsaOrdered_of_wellFormed (req : Request) (k : Key) (hwf : DeclaredWellFormed req)
+    (h : EddsaParamsClause req k) : EddsaParamsClauseOrdered req k := by
+  obtain ⟨pk, hd, a, ha, h⟩ := h
+  obtain ⟨pre, post, heq⟩ := List.append_of_mem ha
+  exact ⟨pk, hd, pre, a, post, heq,
+    fun x hx hk => (hwf x (by rw [heq]; exact List.mem_append_left _ hx)).2 hk, h⟩
+
+/-- on a self-consistent declared policy the refinement says nothing new … -/
+theorem keyClauseOrdered_iff_of_wellFormed (req : Request) (pol : RequestPolicy) (k : Key)
+    (hwf : DeclaredWellFormed req) : KeyClauseOrdered req pol k ↔ KeyClause req pol k := by
+  constructor
+  · exact keyClauseOrdered_imp req pol k
+  · rintro ⟨h1, h2⟩
+    refine ⟨h1, ?_⟩
+    rcases h2 with h | h | h
+    · exact Or.inl h
+    · exact Or.inr (Or.inl ⟨h.1, ecdsaOrdered_of_wellFormed req k hwf h.2⟩)
+    · exact Or.inr (Or.inr ⟨h.1, eddsaOrdered_of_wellFormed req k hwf h.2⟩)
+
+/-- … so `C06_iff_spec` restricted to `DeclaredWellFormed` IS `C06_iff_spec_partial`: the
+    hypothesis-free theorem is strictly stronger, the refined region is the documented region
+    wherever the latter is well defined (and does not depend on the visiting order there). -/
+theorem regionOrdered_iff_of_wellFormed (req : Request) (pol : RequestPolicy)
+    (hwf : DeclaredWellFormed req) :
+    KeyHeaderRegionSpecOrdered req pol ↔ KeyHeaderRegionSpec req pol := by
+  unfold KeyHeaderRegionSpecOrdered KeyHeaderRegionSpec
+  apply and_congr_right; intro _
+  apply and_congr_right; intro _
+  apply and_congr_left'
+  apply imp_congr_right; intro _
+  apply and_congr_left'
+  apply forall_congr'; intro k; apply imp_congr_right; intro _
+  exact keyClauseOrdered_iff_of_wellFormed req pol k hwf
+
+example : DeclaredWellFormed exReq ∧ KeyHeaderRegionSpecOrdered exReq exPol ∧
+    exPol.enableUnsupportedEcdsa = false ∧ exPol.enableUnsupportedEdwardsDsa = false :=
+  ⟨fun a ha => by simp [exReq] at ha; subst ha; simp, (C06_iff_spec _ _).mp (by decide +kernel),
+   by decide, by decide⟩
+
+
+/-! ### … and the hypothesis is discharged for every request the KSR parser builds
+
+  `_parse_signature_algorithms` chooses the element (`RSA` / `ECDSA` / `EdDSA`) by the algorithm NUMBER,
+  so a declared entry whose element kind contradicts its number cannot come out of a KSR file (the
+  parser raises `KeyError`, fail-closed; replayed exhaustively on /repo by `parser_stream` of
+  corr_C06.py).  At the property's observation point (`load_ksr`) the documented region as literally
+  stated is therefore exact; the `_needed` witnesses exist only as hand-built `Request` objects. -/
+
+theorem declaredWellFormed_of_parsed (gs : Xml.GlueSwitches) (data : Xml.XVal) (req : Request)
+    (h : Xml.requestFromDict gs data = .ok req) : DeclaredWellFormed req := by
+  intro a ha
+  have := requestFromDict_wf gs data req h a ha
+  exact ⟨fun hk => (isEcdsa_iff_table _).mp (this.1 hk), fun hk => (isEddsa_iff_table _).mp (this.2 hk)⟩
+
+/-- **C06 for every request built by the KSR parser, every policy: the rules accept iff the request
+    lies in the documented region as literally stated** (no hypothesis on the declared set). -/
+theorem C06_iff_spec_parsed (gs : Xml.GlueSwitches) (data : Xml.XVal) (req : Request) (pol : RequestPolicy)
+    (h : Xml.requestFromDict gs data = .ok req) :
+    keyHeaderChecks req pol = .ok () ↔ KeyHeaderRegionSpec req pol :=
+  C06_iff_spec_partial req pol (declaredWellFormed_of_parsed gs data req h)
+
+def pS (x : String) : Xml.XVal := .str x.toList
+def pD (kvs : List (String × Xml.XVal)) : Xml.XVal := .dict (kvs.map fun p => (p.1.toList, p.2))
+/-- a KSR (no bundles) declaring `<SignatureAlgorithm algorithm=number><ECDSA size="256"/>` -/
+def exKsrDict (number : String) : Xml.XVal :=
+  pD [("KSR", pD [("attrs", pD [("id", pS "4fe9bb10"), ("serial", pS "99"), ("domain", pS ".")]),
+    ("value", pD [("Request", pD [("RequestPolicy", pD [("ZSK", pD [
+      ("PublishSafety", pS "P10D"), ("RetireSafety", pS "P10D"), ("MaxSignatureValidity", pS "P21D"),
+      ("MinSignatureValidity", pS "P21D"), ("MaxValidityOverlap", pS "P12D"), ("MinValidityOverlap", pS "P9D"),
+      ("SignatureAlgorithm", pD [("attrs", pD [("algorithm", pS number)]),
+        ("value", pD [("ECDSA", pD [("attrs", pD [("size", pS "256")]), ("value", pS "")])])])])])])])])]
+
+/-- the hypothesis is satisfiable (an ECDSA element with an ECDSA number parses to the well-formed
+    entry), and the ill-formed entry of the witnesses is refused by the parser -/
+example : (Xml.requestFromDict Xml.pyGlueSwitches (exKsrDict "13")).map (·.zskPolicy.algorithms) = .ok [exEcGood] ∧
+    Xml.requestFromDict Xml.pyGlueSwitches (exKsrDict "15") = err .key :=
+  ⟨by decide +kernel, by decide +kernel⟩
 
 end Kskm.C06
